@@ -71,6 +71,8 @@ fn main() {
         let mut n_cleanups = 0u64;
         let mut max_t = now;
         let mut ordered = true;
+        let mut ops_json: Vec<String> = Vec::new();
+        let mut panicked: Option<String> = None;
         for i in 0..nops {
             // choose the next instant
             let snap = st.snapshot();
@@ -111,7 +113,13 @@ fn main() {
                     Op::Cas(key, old, pick_val(&mut rng), pick_ttl(&mut rng), now)
                 }
             };
-            let (res_json, abs_json) = match op {
+            let op_json = match op {
+                Op::Get(k, t) => format!("[\"get\",{k},{t}]"),
+                Op::SetNx(k, v, ttl, t) => format!("[\"set\",{k},{v},{ttl},{t}]"),
+                Op::Cas(k, o, n, ttl, t) => format!("[\"cas\",{k},{o},{n},{ttl},{t}]"),
+            };
+            ops_json.push(op_json.clone());
+            let stepped = std::panic::catch_unwind(std::panic::AssertUnwindSafe(|| match op {
                 Op::Get(_, _) => {
                     let r = st.get(&ks, tm).unwrap();
                     (match r { Some(v) => format!("{v}"), None => "null".into() }, match cur_abs { Some(v) => format!("{v}"), None => "null".into() })
@@ -128,6 +136,15 @@ fn main() {
                     if a { abs.insert(key, (new, now + ttl as i128)); pending_ttls.push(now + ttl as i128); }
                     (format!("{r}"), format!("{a}"))
                 }
+            }));
+            let (res_json, abs_json) = match stepped {
+                Ok(x) => x,
+                Err(e) => {
+                    // a store operation that panics (or returns Err) is not the abstract map's answer: report the sequence so far
+                    let msg = e.downcast_ref::<String>().cloned().or_else(|| e.downcast_ref::<&str>().map(|m| m.to_string())).unwrap_or_default();
+                    panicked = Some(msg);
+                    break;
+                }
             };
             if ordered && res_json != abs_json && oracle == "ok" {
                 oracle = format!("bad:step {i} store returned {res_json}, abstract expiring map {abs_json}");
@@ -138,13 +155,12 @@ fn main() {
             cleanups_prev = cl;
             let snap = st.snapshot();
             let snap_s: Vec<String> = snap.iter().map(|x| x.to_string()).collect();
-            let op_json = match op {
-                Op::Get(k, t) => format!("[\"get\",{k},{t}]"),
-                Op::SetNx(k, v, ttl, t) => format!("[\"set\",{k},{v},{ttl},{t}]"),
-                Op::Cas(k, o, n, ttl, t) => format!("[\"cas\",{k},{o},{n},{ttl},{t}]"),
-            };
             if i > 0 { out.push(','); }
             out.push_str(&format!("{{\"op\":{op_json},\"res\":{res_json},\"cleaned\":{cleaned},\"len\":{},\"snap\":[{}]}}", st.len(), snap_s.join(",")));
+        }
+        if let Some(msg) = panicked {
+            println!("{{\"mode\":\"panic\",\"cfg\":{},\"ordered\":{ordered},\"msg\":{:?},\"ops\":[{}]}}", cfg.json(), msg, ops_json.join(","));
+            continue;
         }
         let snap0_s: Vec<String> = snap0.iter().map(|x| x.to_string()).collect();
         println!("{{\"cfg\":{},\"snap0\":[{}],\"ordered\":{ordered},\"cleanups\":{n_cleanups},\"oracle\":\"{oracle}\",\"steps\":[{out}]}}",
